@@ -143,7 +143,29 @@ func (x *Exec) callWith(fr *Frame, st *State, in *ssa.Call, cc *ssa.CallCommon, 
 		x.yieldCall(fr, st, cc, fn, args, k)
 		return
 	}
-	x.foreignCall(fr, st, &CallEvent{Kind: "fn", FnTerm: fn.T, Args: args, Desc: desc, Org: fn.Org, From: fn.From}, sig, args, k)
+	// preconditions of calls through a func-typed field (fn-sink rules)
+	for _, sr := range x.cs.Sinks {
+		if sr.Method != "()" || !x.sinkMatches(sr, fn, nil) {
+			continue
+		}
+		env := &Env{x: x, st: st, vars: map[string]Val{}, pkg: x.pkgOf(fr.fn), fr: fr}
+		for i, p := range sr.Params {
+			if i < len(args) {
+				env.vars[p] = args[i]
+			}
+		}
+		for _, c := range sr.Req {
+			g := x.evalBool(env, c.Expr)
+			x.oblige(st, "CALL", fmt.Sprintf("fn-pre(%s: %s)", sr.Owner, c.Src), g, "precondition of a call through a func-typed field")
+			st.assume(g)
+		}
+	}
+	ev := &CallEvent{Kind: "fn", FnTerm: fn.T, Args: args, Desc: desc, Org: fn.Org, From: fn.From}
+	if n, ok := types.Unalias(cc.Value.Type()).(*types.Named); ok && x.cs.PureFnTypes[n.Obj().Name()] {
+		ev.NoHavoc = true
+		x.funcsUsed["assume:values of func type "+n.Obj().Name()+" only read the package's memory (they are closures of this package, verified under `modifies nothing`)"] = true
+	}
+	x.foreignCall(fr, st, ev, sig, args, k)
 }
 
 // foreignCall: code we know nothing about runs. Closures passed to it may be
@@ -157,7 +179,37 @@ func (x *Exec) foreignCall(fr *Frame, st *State, ev *CallEvent, sig *types.Signa
 			st.esc[args[i].Loc.Cell] = true
 		}
 	}
-	x.havocHeap(st, "foreign call "+ev.Desc)
+	// object invariants hold in visible states: the receiver's invariant
+	// must hold when control is handed to foreign code, and holds again when
+	// it comes back (every method of the type preserves it)
+	selfInv := func(assume bool) {
+		if fr == nil || !fr.isEntry || ev.NoHavoc {
+			return
+		}
+		root := rootFn(fr.fn)
+		if root != fr.fn || root.Signature.Recv() == nil || len(fr.params) == 0 {
+			return
+		}
+		tn := recvTypeName(root.Signature.Recv().Type())
+		invs := x.cs.ObjInvs[FuncPkgPath(fr.fn)+"."+tn]
+		if len(invs) == 0 {
+			return
+		}
+		ienv := &Env{x: x, st: st, vars: map[string]Val{"self": fr.params[0]}, pkg: x.pkgOf(fr.fn)}
+		for _, c := range invs {
+			g := x.evalBool(ienv, c.Expr)
+			if assume {
+				st.assume(g)
+			} else {
+				x.oblige(st, "INV", fmt.Sprintf("invariant-at-foreign-call(%s: %s)@%s", tn, c.Src, ev.Desc), g, "the receiver's invariant must hold when foreign code is called")
+			}
+		}
+	}
+	selfInv(false)
+	if !ev.NoHavoc {
+		x.havocHeap(st, "foreign call "+ev.Desc)
+	}
+	selfInv(true)
 	rs := x.freshResults(st, sig)
 	if ev.Kind == "invoke" {
 		// assumed interface contract: an iterator-returning method of
@@ -275,8 +327,9 @@ func (x *Exec) staticCall(fr *Frame, st *State, cc *ssa.CallCommon, callee *ssa.
 			// package: an unspecified but deterministic function
 			x.funcsUsed["lib-pure:"+name+" (deterministic function of its arguments, otherwise unspecified)"] = true
 			var rs []Val
+			uargs := x.bytesAsStrings(st, args)
 			for i := 0; i < sig.Results().Len(); i++ {
-				rs = append(rs, x.uninterp(st, fmt.Sprintf("lf_%s_%d", sanitize(name), i), args, sig.Results().At(i).Type()))
+				rs = append(rs, x.uninterp(st, fmt.Sprintf("lf_%s_%d", sanitize(name), i), uargs, sig.Results().At(i).Type()))
 			}
 			x.libFacts(st, name, args, rs)
 			k(st, resultVal(rs, sig))
@@ -393,6 +446,18 @@ func (x *Exec) applyContract(fr *Frame, st *State, cc *ssa.CallCommon, callee *s
 		x.oblige(st, "CALL", fmt.Sprintf("pre(%s: %s)@%s", key, c.Src, x.posText(cc.Pos())), g, "precondition of callee")
 		st.assume(g)
 	}
+	for _, hk := range x.holdsKeys(ctr, env) {
+		found := false
+		for _, h := range st.held {
+			if h == hk {
+				found = true
+			}
+			if strings.HasPrefix(hk, "?#") && strings.HasSuffix(h, hk[1:]) {
+				found = true
+			}
+		}
+		x.oblige(st, "LOCK", fmt.Sprintf("callee-needs-lock(%s holds %s)@%s", key, strings.Join(ctr.Holds, ","), x.posText(cc.Pos())), BoolLit(found), "callee must be entered with the mutex held")
+	}
 	oldSt := st.clone()
 	oldEnv := env.child()
 	oldEnv.st = oldSt
@@ -416,7 +481,7 @@ func (x *Exec) applyContract(fr *Frame, st *State, cc *ssa.CallCommon, callee *s
 		}
 	}
 	for i := range args {
-		if args[i].Clo != nil {
+		if args[i].Clo != nil && !ctr.NoCall {
 			x.closureAsLoop(fr, st, args[i].Clo, &CallEvent{Desc: key})
 		}
 	}
@@ -447,8 +512,29 @@ func (x *Exec) applyContract(fr *Frame, st *State, cc *ssa.CallCommon, callee *s
 		}
 		st.assume(x.evalBool(post, c.Expr))
 	}
+	// a method re-establishes the object invariant of its receiver
+	if callee.Signature.Recv() != nil && len(args) > 0 && callee.Parent() == nil {
+		tn := recvTypeName(callee.Signature.Recv().Type())
+		if invs := x.cs.ObjInvs[FuncPkgPath(callee)+"."+tn]; len(invs) > 0 {
+			ienv := &Env{x: x, st: st, vars: map[string]Val{"self": args[0]}, pkg: x.pkgOf(callee)}
+			for _, c := range invs {
+				st.assume(x.evalBool(ienv, c.Expr))
+			}
+		}
+	}
 	if ctr.LogCalls {
 		st.calls = append(st.calls, &CallEvent{Kind: "static", Static: callee, Args: args, Results: rs, Desc: key})
+	}
+	if ctr.Atomic {
+		// the callee enters (and leaves) a critical section of its own
+		st.lockLog = append(st.lockLog, "callee:"+key)
+		if len(st.held) > 0 && callee.Signature.Recv() != nil {
+			for _, h := range st.held {
+				if strings.HasPrefix(h, args[0].T.S+".") {
+					x.oblige(st, "LOCK", fmt.Sprintf("no-self-deadlock(call of %s while holding its receiver's mutex)@%s", key, x.posText(cc.Pos())), False, "callee locks a mutex that is already held")
+				}
+			}
+		}
 	}
 	x.lockEffects(st, ctr, env)
 	k(st, resultVal(rs, sig))
@@ -794,7 +880,9 @@ func (x *Exec) closureAsLoop(fr *Frame, st *State, c *Closure, ev *CallEvent) {
 	// an arbitrary invocation
 	body := st.clone()
 	x.havocCaptured(body, c)
-	x.havocHeap(body, "closure invocation")
+	if ev == nil || !ev.NoHavoc {
+		x.havocHeap(body, "closure invocation")
+	}
 	if len(invs) > 0 {
 		env := mkEnv(body)
 		for _, c := range invs {
@@ -1090,4 +1178,24 @@ func (x *Exec) frameCall(st *State, callee, item string) {
 		}
 	}
 	x.oblige(st, "FRAME", fmt.Sprintf("frame(call of %s modifies %s)", callee, item), False, "callee may modify memory outside this function's modifies clause")
+}
+
+// bytesAsStrings: a deterministic library function of a []byte argument
+// depends on the bytes only (not on capacity or nil-ness): the argument is
+// passed as its string view.
+func (x *Exec) bytesAsStrings(st *State, args []Val) []Val {
+	if x.te.StrSort != "String" || x.te.ByteBV {
+		return args
+	}
+	out := make([]Val, len(args))
+	for i, a := range args {
+		out[i] = a
+		if a.Typ == nil || a.T.IsZero() {
+			continue
+		}
+		if sl, ok := a.Typ.Underlying().(*types.Slice); ok && isByteType(sl.Elem()) && strings.HasPrefix(a.T.Sort, "Sl_") {
+			out[i] = Val{T: x.bytesToString(st, a.T), Typ: types.Typ[types.String]}
+		}
+	}
+	return out
 }
